@@ -623,6 +623,8 @@ bool NaorPinkasEOTP::Choose_interactive_OneOutOfN_optimized
 		mpz_set_ui(foo, sigma);
 		tmcg_mpz_fspowm(fpowm_table_g, bar, g, foo, p);
 		assert(mpz_invert(foo, bar, p));
+		if (!mpz_invert(foo, bar, p))
+			mpz_set_ui(foo, 0L); // indicates an error
 		mpz_mul(z0, z0, foo); // $z_0 = g^c / g^i$
 		mpz_mod(z0, z0, p);
 		out << x << std::endl << y << std::endl << z0 << std::endl;
